@@ -321,6 +321,20 @@ theorem swap_ok {cv : Curve} {s s' : St} {u dir off rcv : Nat} {ms : Option Nat}
     · simp only [St.setUser, St.user, dflt]; omega
     · simp only [St.setUser, St.user, dflt]; omega
 
+/-- a deposit naming an asset with the wrong kind never succeeds -/
+theorem provideBad_not_ok {s s' : St} {u d0 d1 k : Nat} (h : provideBad s u d0 d1 k = .ok s') : False := by
+  unfold provideBad at h
+  obtain ⟨_, _, h⟩ := Res.bind_eq_ok h
+  split at h
+  · obtain ⟨_, _, h⟩ := Res.bind_eq_ok h
+    split at h
+    · cases h
+    · split at h <;> cases h
+  · obtain ⟨_, _, h⟩ := Res.bind_eq_ok h
+    split at h
+    · cases h
+    · split at h <;> cases h
+
 theorem swapBad_ok {cv : Curve} {s s' : St} {u dir off sent : Nat}
     (h : swapBad cv s u dir off sent = .ok s') : swap cv s u dir off none u = .ok s' := by
   unfold swapBad at h
@@ -695,6 +709,7 @@ theorem step_linv {cv : Curve} {K0 C0 K1 C1 : Nat} {s s' : St} {op : Op} (hL : L
     subst e
     exact ⟨hL.l0, hL.l1, ⟨hL.cons.c0, hL.cons.c1⟩⟩
   | foreign k u a => cases h
+  | provideBad u d0 d1 k => exact (provideBad_not_ok h).elim
   | donate u which amt =>
     obtain ⟨hu, hcase⟩ := donate_ok h
     have c0 := hL.cons.c0; have c1 := hL.cons.c1
@@ -826,6 +841,7 @@ theorem step_inv {s s' : St} {op : Op} (hI : Inv s) (h : step cpCurve s op = .ok
     subst e
     exact ⟨⟨hI.solv0, hI.solv1, hI.lpSum, hI.locked⟩, Nat.le_refl _⟩
   | foreign k u a => cases h
+  | provideBad u d0 d1 k => exact (provideBad_not_ok h).elim
   | donate u which amt =>
     obtain ⟨hu, hcase⟩ := donate_ok h
     have hs := hI.lpSum; have hl := hI.locked
@@ -970,6 +986,7 @@ theorem step_value {s s' : St} {op : Op} (h : step cpCurve s op = .ok s') (hS : 
     subst e
     exact ValueLe.refl _
   | foreign k u a => cases h
+  | provideBad u d0 d1 k => exact (provideBad_not_ok h).elim
   | donate u which amt =>
     obtain ⟨_, hcase⟩ := donate_ok h
     rcases hcase with ⟨_, _, e⟩ | ⟨_, _, e⟩ | ⟨_, _, e⟩ <;> subst e
@@ -1245,6 +1262,7 @@ theorem step_deltas {cv : Curve} {s s' : St} {op : Op} (h : step cv s op = .ok s
     subst e
     exact ⟨0, 0, 0, 0, 0, 0, SideDelta.same _, SideDelta.same _, by simp, by simp⟩
   | foreign k u a => cases h
+  | provideBad u d0 d1 k => exact (provideBad_not_ok h).elim
   | donate u which amt =>
     obtain ⟨_, hcase⟩ := donate_ok h
     rcases hcase with ⟨_, _, e⟩ | ⟨_, _, e⟩ | ⟨_, _, e⟩ <;> subst e
@@ -1262,6 +1280,7 @@ def Op.actor : Op → Option Nat
   | .donate u _ _ => some u
   | .swapBad u _ _ _ => some u
   | .foreign _ u _ => some u
+  | .provideBad u _ _ _ => some u
   | .collect => none
   | .setFees _ _ => none
   | .setCollector _ _ => none
@@ -1348,6 +1367,7 @@ theorem others_never_lose {cv : Curve} {s s' : St} {op : Op} (h : step cv s op =
     subst e
     exact User.le_refl _
   | foreign k u a => cases h
+  | provideBad u d0 d1 k => exact (provideBad_not_ok h).elim
   | donate u which amt =>
     have hvu : v ≠ u := fun e => hv (by simp [Op.actor, e])
     obtain ⟨_, hcase⟩ := donate_ok h
